@@ -298,7 +298,7 @@ func TestC18_Transform(t *testing.T) {
 		o := transformOpts{base: rapid.Bool().Draw(t, "base"), incPub: rapid.Bool().Draw(t, "incPub"), incUnpub: rapid.Bool().Draw(t, "incUnpub"),
 			published: rapid.Bool().Draw(t, "published"), id: rapid.SampledFrom([]string{"did:sidetree:EiAbc", "did:ion:EiAbc:eyJkZWx0YSI6e319", "did:x:y:z:123"}).Draw(t, "id")}
 		if rapid.Bool().Draw(t, "methodCtx") {
-			o.methodCtx = rapid.SampledFrom([][]string{{"https://method.example/v1"}, {"https://a.example", "https://b.example"}}).Draw(t, "methodCtxVal")
+			o.methodCtx = rapid.SampledFrom([][]string{{"https://method.example/v1"}, {"https://a.example", "https://b.example"}, {"https://a.example", "https://b.example", "https://c.example", "https://d.example"}}).Draw(t, "methodCtxVal")
 		}
 		if rapid.IntRange(0, 3).Draw(t, "customKeyCtx") == 0 {
 			o.keyCtx = map[string]string{}
@@ -385,6 +385,18 @@ func TestC18_Transform(t *testing.T) {
 		if w2 := refTransform(s, o2); refJCS(rt1c) != refJCS(w2) {
 			gm, _ := rt1c.(map[string]interface{})
 			t.Fatalf("C18 transforming the same resolved state with the other @base option gives a wrong result\n got  %s\n want %s", refJCS(gm["didDocument"]), refJCS(w2["didDocument"]))
+		}
+
+		// an earlier result stays what it was when the same transformer instance transforms another state
+		ed3 := map[string][]byte{}
+		doc3 := map[string]interface{}{"publicKey": []interface{}{genTransformKey(t, "other1", ed3), genTransformKey(t, "other2", ed3)}}
+		rm3 := &protocol.ResolutionModel{Doc: libDoc(doc3)}
+		if _, err := tr.TransformDocument(rm3, protocol.TransformationInfo{"id": "did:sidetree:EiOther", "published": false}); err != nil {
+			t.Fatalf("C18 TransformDocument of another state: %v", err)
+		}
+		if again, _ := jsonRoundTrip(got); refJCS(again) != refJCS(want) {
+			gm, _ := again.(map[string]interface{})
+			t.Fatalf("C18 an earlier resolution result changed when the transformer was used again\n now  %s\n was  %s", refJCS(gm["didDocument"]), refJCS(want["didDocument"]))
 		}
 
 		// generic (non-DID) transformer: document as is plus id, same metadata
